@@ -59,6 +59,10 @@ def run(ctx):
     ctx.report.rules[-1].id = "R08.9(R03.3)"
     from .. import identity
     identity.check_keys(ctx, rep, "C08", "R08.10", ["builder", "digest"])
+    # which op sequences the decoder accepts (a stricter decoder refuses streams the documented layout allows)
+    from . import c09
+    c09.r09_3(ctx, rep, roles, P="C08")
+    ctx.report.rules[-1].id = "R08.11(R09.3)"
 
 
 def items_of(out, variant, exit_kind="return"):
